@@ -105,7 +105,7 @@ pub mod std {
         /// virtual nanoseconds per scheduler tick
         pub const NS_PER_TICK: u64 = 10_000;
 
-        fn register(name: Option<&str>) -> usize {
+        pub(crate) fn register(name: Option<&str>) -> usize {
             let idx = rt::with(|st| {
                 let step = st.decisions;
                 st.threads.push(ThreadRec {
@@ -122,7 +122,7 @@ pub mod std {
             idx
         }
 
-        fn body<F, T>(
+        pub(crate) fn body<F, T>(
             idx: usize,
             cell: ::std::sync::Arc<::std::sync::atomic::AtomicU32>,
             f: F,
@@ -256,3 +256,79 @@ pub mod std {
         }
     }
 }
+
+/// `shim::rayon` shadows the `rayon` crate name in the same files. It is rayon, except that
+/// `spawn` runs the job on a simulated fixed-size pool: a job is a simulated thread that may
+/// only start once one of the `pool_size` pool threads of the simulated process is free, and it
+/// keeps that pool thread until it returns (rayon jobs are not preempted: a job that blocks or
+/// spins occupies its pool thread). Which queued job starts next is the scheduler's choice.
+/// An uncaught panic of a job ends the process (rayon aborts when no panic handler is set).
+/// Everything else of rayon (par_iter, join, scope) is the real thing on real threads: fine for
+/// pure computations, not for closures that use the simulated primitives.
+pub mod rayon {
+    pub use ::rayon::*;
+
+    use crate::rt::{self, Kind};
+
+    pub fn spawn<F>(f: F)
+    where
+        F: FnOnce() + Send + 'static,
+    {
+        if !rt::in_run() {
+            ::rayon::spawn(f);
+            return;
+        }
+        let no = rt::with(|st| {
+            st.pool_jobs += 1;
+            st.pool_jobs
+        });
+        let name = format!("rayon pool job {no}");
+        let idx = crate::shim::std::thread::register(Some(&name));
+        let (_t, cell) = crate::timed::Thread::not_started(Some(name.clone()));
+        let job = move || {
+            // wait for a free pool thread
+            crate::timed::wait_until(crate::timed::FOREVER, || {
+                let me = rt::current_task();
+                rt::with(|st| {
+                    if st.pool_busy < st.pool_size {
+                        st.pool_busy += 1;
+                        true
+                    } else {
+                        if !st.pool_waiters.contains(&me) {
+                            st.pool_waiters.push(me);
+                        }
+                        false
+                    }
+                })
+            });
+            rt::log(Kind::Note, 40, no);
+            let r = ::std::panic::catch_unwind(::std::panic::AssertUnwindSafe(f));
+            if let Err(p) = r {
+                if p.is::<crate::sched::StopRun>() {
+                    ::std::panic::resume_unwind(p);
+                }
+                // the panic hook of the program ran already; rayon would now abort the process
+                crate::shim::std::process::exit(134);
+                ::std::panic::resume_unwind(p);
+            }
+            let waiters = rt::with(|st| {
+                st.pool_busy -= 1;
+                ::std::mem::take(&mut st.pool_waiters)
+            });
+            for w in waiters {
+                crate::timed::wake(w);
+            }
+        };
+        let mut b = ::shuttle::thread::Builder::new();
+        b = b.name(name);
+        let _ = b.spawn(crate::shim::std::thread::body(idx, cell, job));
+    }
+
+    pub fn current_num_threads() -> usize {
+        if !rt::in_run() {
+            return ::rayon::current_num_threads();
+        }
+        rt::with(|st| st.pool_size as usize)
+    }
+}
+
